@@ -19,6 +19,7 @@ import (
 	"encoding/json"
 	"fmt"
 	"math"
+	"os"
 	"reflect"
 	"regexp"
 	"strconv"
@@ -1005,6 +1006,8 @@ type harness struct {
 	pending []*callCase
 	pendOb  []observed
 	throwSamples []*callCase
+	seqReported  map[string]bool
+	fixtureOfCall *fixture // generator state: the fixture whose method histCall is building a call for
 }
 
 func (h *harness) flush() {
@@ -1633,7 +1636,7 @@ func (h *harness) streamGeneric(random int) {
 // ------------------------------------------------------------ runner
 
 func Run(c *vh.Ctx) {
-	h := &harness{c: c}
+	h := &harness{c: c, seqReported: map[string]bool{}}
 	if c.ModelPath != "" {
 		m, err := vh.StartModel(c.ModelPath)
 		if err != nil {
@@ -1650,6 +1653,18 @@ func Run(c *vh.Ctx) {
 			Kind string `json:"kind"`
 		}
 		json.Unmarshal(c.ReplayRaw, &k)
+		if k.Kind == "seq" {
+			var sc seqCase
+			if err := json.Unmarshal(c.ReplayRaw, &sc); err != nil {
+				c.Note("bad replay: %v", err)
+				return
+			}
+			h.doSeq(&sc, true)
+			if h.m != nil {
+				c.Res.ModelLines = h.m.Lines
+			}
+			return
+		}
 		if k.Kind == "ctor" {
 			var cc ctorCase
 			if err := json.Unmarshal(c.ReplayRaw, &cc); err != nil {
@@ -1681,17 +1696,21 @@ func Run(c *vh.Ctx) {
 		}
 		return
 	}
-	c.Res.Rule = "call: one registered Go function (reflect.MakeFunc) or Bag method invoked by one script; distinct = distinct (path, signature, argument values, returned value, argument passing mode); non-trivial = the signature has at least one parameter or a result. gen: one utils.Convert[T]/ConvertFromIndex[T] application; distinct = (function, T, value)"
-	nsig := h.streamSupported(c.N(24, 200))
-	h.streamAllTypes()
-	h.streamMixed(c.N(6000, 400000))
-	h.streamMethods(c.N(20, 400))
-	h.flush()
-	h.checkCatchable()
-	h.streamCtor(c.N(300, 5000))
-	h.streamGeneric(c.N(30, 1500))
+	c.Res.Rule = "call: one registered Go function (reflect.MakeFunc) or Bag method invoked by one script; distinct = distinct (path, signature, argument values, returned value, argument passing mode); non-trivial = the signature has at least one parameter or a result. gen: one utils.Convert[T]/ConvertFromIndex[T] application; distinct = (function, T, value). hist: one call inside a history of registrations and calls run in a fresh process; distinct = (callee, VM, route, arguments, returned value)"
+	nsig := 0
+	if os.Getenv("C17_ONLY") != "hist" { // development aid: only the history stream
+		nsig = h.streamSupported(c.N(24, 200))
+		h.streamAllTypes()
+		h.streamMixed(c.N(6000, 400000))
+		h.streamMethods(c.N(20, 400))
+		h.flush()
+		h.checkCatchable()
+		h.streamCtor(c.N(300, 5000))
+		h.streamGeneric(c.N(30, 1500))
+	}
+	nh, nhc := h.streamHistories(c.N(12, 150), c.N(300, 2000))
 	c.Res.Exhaustive = true
-	c.Res.ExhaustiveWhat = fmt.Sprintf("all %d signatures of arity 0..3 over {string,bool,int,int64,float64} with each result kind or none (whole boundary pool at arity 0/1, diagonal + seeded tuples above); every one of %d Go types (sized, defined, slice/interface/pointer/map/struct) as single parameter x every pool value of every class, as identity, as result x its pool, and all %d ordered pairs as two parameters; %d Bag methods x pool; reflective constructor of Rec (6 fields) x diagonal of the pools; utils.Convert/ConvertFromIndex for %d target types x every pool value", nsig, len(allTypes), len(allTypes)*len(allTypes), len(bagMethods), len(genProbes))
+	c.Res.ExhaustiveWhat = fmt.Sprintf("all %d signatures of arity 0..3 over {string,bool,int,int64,float64} with each result kind or none (whole boundary pool at arity 0/1, diagonal + seeded tuples above); every one of %d Go types (sized, defined, slice/interface/pointer/map/struct) as single parameter x every pool value of every class, as identity, as result x its pool, and all %d ordered pairs as two parameters; %d Bag methods x pool; reflective constructor of Rec (6 fields) x diagonal of the pools; utils.Convert/ConvertFromIndex for %d target types x every pool value; %d histories (%d calls) over %d struct types sharing %d method names with different arities / parameter types / result types / receivers (plus functions sharing names across VMs), each in a fresh process: for every shared name an Eulerian tour of its callees (every ordered pair adjacent) started at every callee, forwards and backwards, interleaved over two VMs and TempVMs, plus seeded random histories", nsig, len(allTypes), len(allTypes)*len(allTypes), len(bagMethods), len(genProbes), nh, nhc, len(fixtures), len(methodNames))
 	if h.m != nil {
 		c.Res.ModelLines = h.m.Lines
 	}
